@@ -320,6 +320,8 @@ def norm_minmax(e):
         c, a, b = fold_bool(norm_minmax(e[1])), norm_minmax(e[2]), norm_minmax(e[3])
         if c[0] == 'bool':
             return a if c[1] else b
+        while c[0] == 'un' and c[1] == 'not':
+            c, a, b = c[2], b, a          # (not c) ? a : b  ==  c ? b : a
         if c[0] == 'bin' and c[1] in ('<', '<=', '>', '>='):
             x, y = c[2], c[3]
             if c[1] in ('<', '<='):
@@ -364,3 +366,68 @@ def _mk(kind, a, b):
         if x not in ded:
             ded.append(x)
     return (kind, tuple(sorted(ded, key=repr)))
+
+
+def peval_fields(e, zero):
+    """Partially evaluate IR expression e with the settings fields in `zero` ((object name, field) -> number) fixed."""
+    if not isinstance(e, tuple):
+        return e
+    k = e[0]
+    if k == 'attr' and e[1][0] == 'var' and (e[1][1], e[2]) in zero:
+        return ('num', zero[(e[1][1], e[2])])
+    if k == 'cond':
+        c = fold_bool(peval_fields(e[1], zero))
+        if c[0] == 'bool':
+            return peval_fields(e[2] if c[1] else e[3], zero)
+        return ('cond', c, peval_fields(e[2], zero), peval_fields(e[3], zero))
+    if k == 'bin':
+        a, b = peval_fields(e[2], zero), peval_fields(e[3], zero)
+        if a[0] in ('num', 'bool') and b[0] in ('num', 'bool') and e[1] in ('==', '!=', '<', '<=', '>', '>='):
+            import operator
+            return ('bool', {'==': operator.eq, '!=': operator.ne, '<': operator.lt, '<=': operator.le, '>': operator.gt, '>=': operator.ge}[e[1]](a[1], b[1]))
+        return fold_bool(('bin', e[1], a, b)) if e[1] in ('and', 'or') else ('bin', e[1], a, b)
+    if k == 'un':
+        x = peval_fields(e[2], zero)
+        return fold_bool(('un', e[1], x)) if e[1] == 'not' else ('un', e[1], x)
+    if k in ('num', 'var', 'str', 'none', 'bool', 'other', 'lambda', 'comp', 'dict'):
+        return e
+    if k == 'call':
+        return ('call', peval_fields(e[1], zero), tuple(peval_fields(a, zero) for a in e[2]), tuple((kw, peval_fields(v, zero)) for kw, v in e[3]))
+    if k in ('tuple', 'list', 'set', 'min', 'max'):
+        return (k, tuple(peval_fields(a, zero) for a in e[1]))
+    return (k,) + tuple(peval_fields(a, zero) if isinstance(a, tuple) else a for a in e[1:])
+
+
+def deep_events(stmts, env=None, loops=()):
+    """Symbolic pass that also descends into loops: every loop body is executed once with its loop variable symbolic (named after itself) and the
+    variables it assigns unknown at entry (`v@in`).  Returns [(event, loops)] where event is an Exec event and loops the tuple of enclosing loop
+    statements (innermost last), in execution order."""
+    out = []
+
+    def on_loop(lp, e, ex):
+        e2 = e.copy()
+        for v in assigned_vars(lp.body):
+            e2[v] = ('var', v + '@in')
+        if lp.k == 'for':
+            e2[lp.var] = ('var', lp.var)
+        elif lp.k == 'foreach':
+            for x in walk_expr(lp.target):
+                if x[0] == 'var':
+                    e2[x[1]] = x
+        body = lp.body
+        sub_ = deep_events(body, e2, loops + (lp,))
+        pre = tuple(ex.path)
+        for ev, lps in sub_:
+            out.append(((ev[0], pre + tuple(ev[1])) + tuple(ev[2:]), lps))
+        return None
+    ex = Exec(on_loop=on_loop)
+    n0 = 0
+
+    class _Tap(list):
+        def append(self, item):        # keep execution order between own events and those of nested loops
+            list.append(self, item)
+            if item[0] != 'loop':
+                out.append((item, loops))
+    ex.events = _Tap()
+    ex.run(stmts, (env or Env()).copy())
+    return out
